@@ -107,7 +107,7 @@ class C09(Check):
 
     def cases(self, tier, seed):
         q = tier == "quick"
-        workers = [1, 2] if q else [1, 2, 4]
+        workers = [1, 2, 4] if q else [1, 2, 3, 4]
         out = []
         for fault in DATA_FAULTS:
             positions = ["middle"] if q else ["first", "middle", "last", "only"]
